@@ -1476,8 +1476,12 @@ func (o *Error) Error() string {
 
 // Equal implements Object interface.
 func (o *Error) Equal(right Object) bool {
-	if v, ok := right.(*Error); ok {
+	switch v := right.(type) {
+	case *Error:
 		return v == o
+	case *RuntimeError:
+		// a thrown error equals the error it wraps, in either order
+		return v.Err == o
 	}
 	return false
 }
